@@ -287,6 +287,18 @@ func rowOf(c Case, v gen.Val, id int) map[string]any {
 		d := map[string]any{"k": 1}
 		if !v.IsMissing() {
 			d["x"] = v.Go()
+		} else {
+			// the path d.x is absent in more than one way: d without x, no d at all, d NULL, d a number
+			switch id % 4 {
+			case 1:
+				return r
+			case 2:
+				r["d"] = nil
+				return r
+			case 3:
+				r["d"] = 5
+				return r
+			}
 		}
 		r["d"] = d
 		return r
